@@ -366,8 +366,10 @@ impl Batch {
 const PARSE_CLASSES: [u8; 10] = [b'a', b'&', b'=', b'+', b'%', b'4', b'1', 0xC3, 0xA9, b' '];
 const BSER_CLASSES: [u8; 9] = [b'a', b'*', b' ', b'~', b'%', b'&', b'+', 0xC3, 0xFF];
 const SMALL_POOL: [&str; 6] = ["", "a", "&", "=", "+ %", "\u{e9}"];
-const STR_POOL: [&str; 16] = [
+const STR_POOL: [&str; 20] = [
     "", "a", "b c", "&", "=", "+", "%", "\u{e9}", "%41", "*-._", "~!", "\u{1F496}", " ", "a=b&c", "k\u{0}", "\u{163}\u{100}",
+    // code points that decoders like to treat specially: byte order mark (alone, leading, inner), U+FFFD, U+FFFE
+    "\u{FEFF}", "\u{FEFF}x", "x\u{FEFF}", "\u{FFFD}\u{FFFE}",
 ];
 const INIT_POOL: [&str; 10] = ["", "a", "a=b", "a=b&", "&", "\u{e9}", "x?a=b", "a=b&c", "%", "a\u{1F496}="];
 
@@ -408,7 +410,8 @@ fn random_str(rng: &mut Rng) -> String {
 }
 /// text shaped like a query string: pieces joined by '&', most with one '=', escapes and '+' inside
 fn structured_query(rng: &mut Rng) -> Vec<u8> {
-    let atoms: [&[u8]; 14] = [b"a", b"bc", b"+", b"%41", b"%C3%A9", b"%c3", b"%", b"%4", b"%zz", b"=", b"\xC3\xA9", b"\xC3", b"*-._", b"%2B%26%3D"];
+    let atoms: [&[u8]; 18] = [b"a", b"bc", b"+", b"%41", b"%C3%A9", b"%c3", b"%", b"%4", b"%zz", b"=", b"\xC3\xA9", b"\xC3", b"*-._", b"%2B%26%3D",
+        b"%EF%BB%BF", b"\xEF\xBB\xBF", b"%EF%BB%BFv", b"%EF%BB"];
     let mut out = Vec::new();
     let pieces = rng.below(5);
     for i in 0..pieces {
